@@ -14,6 +14,23 @@ use verif_harness::util::*;
 fn explore() -> i32 {
     let sets = rule_sets();
     let bufs = buffers();
+    for (rs, set) in sets.iter().enumerate() {
+        let t = std::time::Instant::now();
+        for _ in 0..50 { let _s = yara_x::Scanner::new(&set.rules); }
+        let t_new = t.elapsed();
+        let mut s = yara_x::Scanner::new(&set.rules);
+        for (i, b) in bufs.iter().enumerate() {
+            let t = std::time::Instant::now();
+            for _ in 0..20 { let _ = s.scan(b); }
+            println!("rs {rs} buf {i} len {}: {:?} per scan", b.len(), t.elapsed() / 20);
+        }
+        println!("rs {rs}: Scanner::new {:?}", t_new / 50);
+    }
+    {
+        let r = verif_harness::util::catch(std::panic::AssertUnwindSafe(|| { let mut b = yara_x::blocks::Scanner::new(&sets[1].rules); b.finish().map(|_| ()).map_err(|e| e.to_string()) }));
+        println!("fresh blocks::Scanner::finish() without scan: {:?}", r);
+    }
+    if std::env::var("C04_EXPLORE_FULL").is_err() { return 0; }
     quiet_panics();
     let show = |name: &str, rs: usize, h: Vec<Op>, p: Probe| {
         let w = World { sets: &sets, bufs: &bufs, rs };
@@ -37,9 +54,262 @@ fn explore() -> i32 {
     0
 }
 
+
+/// digest -> the values of Scanner/StateCheck.v `digest_cells`, in that order
+fn digest_cells(d: &str) -> Vec<u64> {
+    let m = parse_digest(d);
+    if m.is_empty() { return vec![]; }
+    let num = |k: &str| -> u64 { m.get(k).map(|v| digest_num(k, v).max(0) as u64).unwrap_or(0) };
+    let timeout = match m.get("ctx.scan_timeout").map(|s| s.as_str()) { None | Some("none") => 0, Some(ms) => (ms.parse::<u64>().unwrap_or(0) + 999) / 1000 + 1 };
+    let is_blk = m.contains_key("blk.needs_reset");
+    vec![
+        is_blk as u64, num("ctx.runtime_objects"), timeout, num("ctx.match_context_size"), num("ctx.scan_state"),
+        num("ctx.matching_rules"), num("ctx.matching_rules_per_ns"), num("ctx.matching_rules_per_ns.keys"), num("ctx.num_matching_private_rules"),
+        num("ctx.current_struct"), num("ctx.module_outputs"), num("ctx.user_provided_module_outputs"),
+        num("tracker.pattern_matches"), num("tracker.pattern_matches.keys"), num("tracker.unconfirmed_matches"), num("tracker.disabled_patterns"),
+        num("tracker.fast_scan"), num("ctx.deadline.rel"), num("ctx.regex_cache"), num("ctx.regex_set_cache"),
+        num("ctx.custom_base64_engine_cache"), num("ctx.console_log"),
+        (m.get("global.filesize").and_then(|v| v.parse::<i64>().ok()).unwrap_or(-1) + 1).max(0) as u64,
+        num("global.pattern_search_done"), num("mem.rule_bitmap"), num("mem.pattern_bitmap"),
+        num("root.globals"), num("root.modules"),
+        if is_blk { num("blk.needs_reset") } else { 1 }, num("blk.snippets"),
+    ]
+}
+
+fn clock_of(d: &str) -> String { parse_digest(d).get("clock").cloned().unwrap_or_default() }
+
+fn cause_class(rule: &str) -> &'static str {
+    let r = rule.rsplit(':').next().unwrap_or(rule);
+    if r.starts_with('<') { return if r.starts_with("<outcome") { "outcome" } else { "module-outputs" }; }
+    if r.starts_with("fs_") || r == "pat_fs" || r == "h_fs" { return "filesize"; }
+    if r.starts_with("md5") || r.starts_with("crc") || r.starts_with("h_") || r == "ent_big" || r == "imphash_def" || r == "cuckoo_dns" { return "thread-local-cache"; }
+    if r.starts_with("pe_") || r.starts_with("tp2") || r.starts_with("tp3") { return "module-fields"; }
+    if r.starts_with("u8") || r.starts_with("u16") || r == "ent_def" || r == "pat_hdr" { return "data-readers"; }
+    if r.starts_with("g_") { return "globals"; }
+    "patterns"
+}
+
+/// the root cause a minimised difference is attributed to (known findings are listed by these)
+fn root_cause(class: &str, block_probe: bool, h: &[Op]) -> String {
+    let has = |k: &str| h.iter().any(|o| o.kind() == k);
+    let timed_out = has("block_finish_timeout") || has("block_scan_timeout");
+    let user_out = has("set_module_output");
+    if block_probe && matches!(class, "filesize" | "module-fields" | "thread-local-cache") {
+        return format!("{}-survives-into-block-mode", class);
+    }
+    if !block_probe && class == "thread-local-cache" && user_out { return "user-supplied-module-output-skips-thread-local-cache-reset".into(); }
+    if !block_probe && user_out && has("scan_module_error") { return "module-error-leaves-user-supplied-outputs".into(); }
+    if block_probe && class == "patterns" && timed_out { return "snippets-survive-timed-out-block-scan".into(); }
+    format!("unclassified:{}:{}:{}", class, if block_probe { "block" } else { "contiguous" }, shape(h))
+}
+
+fn norm_kind(k: &str) -> &'static str {
+    match k {
+        "scan" | "scan_with_options" | "scan_timeout" => "contiguous_scan",
+        "scan_module_error" => "scan_module_error",
+        "other_scan" | "other_blocks" => "other_scanner_scan",
+        "set_global" => "set_global", "set_timeout" => "set_timeout", "max_matches_per_pattern" => "max_matches_per_pattern",
+        "fast_scan" => "fast_scan", "match_context_size" => "match_context_size", "set_module_output" => "set_module_output",
+        "into_blocks" => "into_blocks", "block_scan" => "block_scan", "block_scan_timeout" => "block_scan_timeout",
+        "block_finish" => "block_finish", "block_finish_timeout" => "block_finish_timeout", _ => "other",
+    }
+}
+
+/// canonical shape of a (minimal) history: option setters first (sorted), then the rest in order, repeats collapsed
+fn shape(h: &[Op]) -> String {
+    let mut setters: Vec<&str> = h.iter().filter(|o| o.is_setter() && !matches!(o, Op::SetModuleOutput { .. })).map(|o| norm_kind(o.kind())).collect();
+    setters.sort(); setters.dedup();
+    let mut rest: Vec<&str> = vec![];
+    for o in h.iter().filter(|o| !o.is_setter() || matches!(o, Op::SetModuleOutput { .. })) {
+        let k = norm_kind(o.kind());
+        if rest.last() != Some(&k) { rest.push(k); }
+    }
+    setters.into_iter().chain(rest).collect::<Vec<_>>().join(">")
+}
+
+const BASES: [usize; 5] = [0, 10_000, 20_000, 30_000, 40_000];
+
+/// `open`: bases already used in the block sequence that is currently open
+fn gen_op(rng: &mut Rng, blocks: bool, nbufs: usize, has_timeout: bool, open: &[usize], is_mix: bool) -> Op {
+    let buf = rng.below(nbufs as u64) as usize;
+    let tmo = |rng: &mut Rng| if has_timeout && rng.chance(1, 3) { Some(1 + rng.below(60)) } else { None };
+    loop {
+        let r = rng.below(100);
+        let op = match r {
+            0..=24 => Op::Scan { buf, timeout_at: tmo(rng) },
+            25..=30 => Op::ScanOpts { buf, bad_meta: is_mix && rng.chance(1, 2) },
+            31..=36 => match rng.below(3) { 0 => Op::SetGlobal { name: "g_int", val: GVal::Int(*rng.pick(&[7, 0, -1])) },
+                                              1 => Op::SetGlobal { name: "g_str", val: GVal::Str(*rng.pick(&["xyz", "", "x-z"])) },
+                                              _ => Op::SetGlobal { name: "g_bool", val: GVal::Bool(rng.chance(1, 2)) } },
+            37..=43 => Op::SetTimeout { secs: 1000 },
+            44..=48 => Op::MaxMatches { n: *rng.pick(&[1usize, 2, 3, 1_000_000]) },
+            49..=53 => Op::FastScan { on: rng.chance(2, 3) },
+            54..=57 => Op::ContextSize { n: *rng.pick(&[0usize, 2, 16]) },
+            58..=64 => Op::SetModuleOutput { which: rng.below(5) as u8 },
+            65..=70 => Op::IntoBlocks,
+            71..=82 => {
+                // blocks of one sequence never overlap (the API leaves consistency of overlapping data to the user)
+                let free: Vec<usize> = BASES.iter().copied().filter(|b| !open.contains(b)).collect();
+                if free.is_empty() { continue; }
+                Op::BlockScan { base: *rng.pick(&free), buf, timeout_at: tmo(rng) }
+            }
+            // finish() without a scanned block panics (context.rs search_for_patterns, `_ => panic!()`): reported separately, not generated
+            83..=89 => { if open.is_empty() { continue; } Op::BlockFinish { timeout_at: tmo(rng) } }
+            90..=95 => Op::OtherScan { rs: rng.below(3) as usize, buf },
+            _ => Op::OtherBlocks { rs: rng.below(3) as usize, buf },
+        };
+        if applicable(&op, blocks) { return op; }
+    }
+}
+
+fn gen_history(rng: &mut Rng, max_len: usize, nbufs: usize, is_mix: bool) -> Vec<Op> {
+    let n = rng.below(max_len as u64 + 1) as usize;
+    let (mut h, mut blocks, mut has_timeout) = (vec![], false, false);
+    let mut open: Vec<usize> = vec![];
+    if rng.chance(1, 4) { h.push(Op::IntoBlocks); blocks = true; } // scanners born as block scanners
+    while h.len() < n {
+        let op = gen_op(rng, blocks, nbufs, has_timeout, &open, is_mix);
+        match &op {
+            Op::IntoBlocks => blocks = true, Op::SetTimeout { .. } => has_timeout = true,
+            Op::BlockScan { base, .. } => open.push(*base), Op::BlockFinish { .. } => open.clear(), _ => {}
+        }
+        h.push(op);
+    }
+    h
+}
+
+fn gen_probe(rng: &mut Rng, blocks: bool, nbufs: usize) -> Probe {
+    if !blocks { return Probe { blocks: vec![(0, rng.below(nbufs as u64) as usize)] }; }
+    let n = 1 + rng.below(3) as usize;
+    let mut bases: Vec<usize> = BASES.to_vec();
+    // any delivery order
+    for i in (1..bases.len()).rev() { let j = rng.below(i as u64 + 1) as usize; bases.swap(i, j); }
+    if rng.chance(1, 2) { if let Some(p) = bases.iter().position(|b| *b == 0) { bases.swap(0, p); } }
+    Probe { blocks: (0..n).map(|i| (bases[i], rng.below(nbufs as u64) as usize)).collect() }
+}
+
+/// no finish() without a scanned block, no two blocks of one sequence at the same base
+fn valid_history(h: &[Op]) -> bool {
+    let mut open: Vec<usize> = vec![];
+    for o in h {
+        match o {
+            Op::BlockScan { base, .. } => { if open.contains(base) { return false; } open.push(*base); }
+            Op::BlockFinish { .. } => { if open.is_empty() { return false; } open.clear(); }
+            _ => {}
+        }
+    }
+    true
+}
+
+fn corpus() -> Vec<(usize, Vec<Op>, Probe)> {
+    vec![
+        // DESIGN section 7 #3: filesize survives Scanner -> blocks::Scanner
+        (0, vec![Op::Scan { buf: 0, timeout_at: None }, Op::IntoBlocks], Probe { blocks: vec![(0, 2)] }),
+        // #4: digest cache of another scanner's scan visible to a fresh block scanner
+        (2, vec![Op::OtherScan { rs: 2, buf: 0 }, Op::IntoBlocks], Probe { blocks: vec![(0, 2)] }),
+        // user-supplied hash output: the digest cache of the previous file answers hash.md5
+        (2, vec![Op::OtherScan { rs: 2, buf: 0 }, Op::SetModuleOutput { which: 1 }], Probe { blocks: vec![(0, 8)] }),
+        // module error leaves the user-supplied outputs of later modules in place
+        (0, vec![Op::SetModuleOutput { which: 0 }, Op::ScanOpts { buf: 0, bad_meta: true }], Probe { blocks: vec![(0, 0)] }),
+        // a finish() that times out keeps the snippets of the abandoned scan
+        (1, vec![Op::SetTimeout { secs: 1000 }, Op::IntoBlocks, Op::BlockScan { base: 0, buf: 2, timeout_at: None }, Op::BlockFinish { timeout_at: Some(1) }], Probe { blocks: vec![(0, 4)] }),
+        // timeouts at several polls, then a contiguous probe
+        (0, vec![Op::SetTimeout { secs: 1000 }, Op::Scan { buf: 3, timeout_at: Some(1) }, Op::Scan { buf: 3, timeout_at: Some(9) }, Op::Scan { buf: 5, timeout_at: Some(30) }], Probe { blocks: vec![(0, 0)] }),
+        (0, vec![Op::MaxMatches { n: 1 }, Op::FastScan { on: true }, Op::Scan { buf: 3, timeout_at: None }, Op::Scan { buf: 6, timeout_at: None }], Probe { blocks: vec![(0, 4)] }),
+    ]
+}
+
+fn run_pair(sets: &[RuleSet], bufs: &[Vec<u8>], rs: usize, h: &[Op], p: &Probe) -> (ProbeRun, ProbeRun, Vec<&'static str>, bool) {
+    let w = World { sets, bufs, rs };
+    for _ in 0..3 {
+        let (u, tags, blocks) = run_used(&w, h, p);
+        let f = run_fresh(sets, bufs, rs, h, p);
+        // the process-wide heartbeat ticked during a probe: the deadline digests are not comparable, run again
+        if clock_of(&u.pre) == clock_of(&u.post) && clock_of(&f.pre) == clock_of(&f.post) { return (u, f, tags, blocks); }
+    }
+    let (u, tags, blocks) = run_used(&w, h, p);
+    (u, run_fresh(sets, bufs, rs, h, p), tags, blocks)
+}
+
+pub fn run(args: &[String]) -> i32 {
+    let seed = arg_u64(args, "--seed", 1);
+    let n = arg_u64(args, "--n", 1500) as usize;
+    let max_len = arg_u64(args, "--max-len", 6) as usize;
+    let out = arg_val(args, "--out").expect("--out");
+    let sets = rule_sets();
+    let bufs = buffers();
+    if std::env::var("C04_LOUD").is_err() { quiet_panics(); }
+    let prelude = "From Coq Require Import List NArith ZArith Bool.\nFrom YV Require Import Scanner.StateCheck.\nImport ListNotations.\n";
+    let mut shards = Shards::new(Path::new(&out), prelude, 100);
+    let mut rng = Rng::new(seed);
+    let mut stats = Stats::default();
+    let mut distinct = std::collections::HashSet::new();
+    let mut samples: Vec<String> = vec![];
+    let mut corpus = corpus();
+    let mut idx = 0usize;
+    while idx < n {
+        idx += 1;
+        let (rs, h, p) = if !corpus.is_empty() { corpus.remove(0) } else {
+            let rs = match rng.below(10) { 0..=5 => 0, 6..=7 => 1, _ => 2 };
+            let h = gen_history(&mut rng, max_len, bufs.len(), rs == 0);
+            let (blocks, _) = persistent_ops(&h);
+            let p = gen_probe(&mut rng, blocks, bufs.len());
+            (rs, h, p)
+        };
+        let (u, f, tags, blocks) = run_pair(&sets, &bufs, rs, &h, &p);
+        stats.inc("histories");
+        stats.inc(&format!("len_{}", match h.len() { 0 => "0", 1..=2 => "1-2", 3..=6 => "3-6", _ => "7+" }));
+        stats.inc(if blocks { "probe_block" } else { "probe_contiguous" });
+        stats.inc(&format!("ruleset_{}", sets[rs].name));
+        for o in &h { stats.inc(&format!("op_{}", o.kind())); }
+        for t in &tags { stats.inc(&format!("history_outcome_{}", t)); }
+        stats.inc(&format!("probe_outcome_{}", u.outcome.tag()));
+        if h.len() >= 2 { distinct.insert(format!("{}{:?}{:?}", rs, h, p)); }
+
+        let diffs = u.outcome.diff(&f.outcome);
+        let mut emit = |h: &[Op], u: &ProbeRun, f: &ProbeRun, extra: String, shards: &mut Shards, samples: &mut Vec<String>| {
+            let cap = |r: &ProbeRun| r.captures.first().map(|(_, d)| digest_cells(d)).unwrap_or_default();
+            let l = |v: &Vec<u64>| coq_list(v, |x| coq_n(*x));
+            let case = format!("mkCase {} {} {} {} {} {} ({}) ({})", coq_bool(blocks), coq_n(bufs[p.blocks[0].1].len() as u64),
+                l(&digest_cells(&u.pre)), l(&cap(u)), l(&digest_cells(&f.pre)), l(&cap(f)), u.outcome.coq(), f.outcome.coq());
+            let replay = format!("{{\"index\":{},\"seed\":{},\"ruleset\":{},\"rules_source\":{},\"history\":[{}],\"probe_blocks\":{},\"buffers_hex\":[{}],\"probe_mode\":\"{}\",\"used\":{},\"fresh\":{}{}}}",
+                idx, seed, json_str(sets[rs].name), json_str(&sets[rs].source), h.iter().map(|o| o.json()).collect::<Vec<_>>().join(","),
+                json_str(&format!("{:?}", p.blocks)), bufs.iter().map(|b| format!("\"{}\"", if b.len() > 64 { format!("{}..({} bytes)", hex(&b[..64]), b.len()) } else { hex(b) })).collect::<Vec<_>>().join(","),
+                if blocks { "block" } else { "contiguous" }, u.outcome.json(), f.outcome.json(), extra);
+            if samples.len() < 3 && h.len() >= 3 { samples.push(replay.clone()); }
+            shards.push(case, replay);
+        };
+        if diffs.is_empty() {
+            emit(&h, &u, &f, String::new(), &mut shards, &mut samples);
+        } else {
+            stats.inc("probe_differs");
+            // one minimised case per cause class
+            let mut classes: Vec<&'static str> = diffs.iter().map(|d| cause_class(d)).collect();
+            classes.sort(); classes.dedup();
+            for class in classes {
+                let mut fails = |hh: &[Op]| -> bool {
+                    let (pb, _) = persistent_ops(hh);
+                    if pb != blocks || !valid_history(hh) { return false; }
+                    let (u2, f2, _, _) = run_pair(&sets, &bufs, rs, hh, &p);
+                    u2.outcome.diff(&f2.outcome).iter().any(|d| cause_class(d) == class)
+                };
+                let hmin = shrink(&h, &mut fails);
+                let (u2, f2, _, _) = run_pair(&sets, &bufs, rs, &hmin, &p);
+                let d2: Vec<String> = u2.outcome.diff(&f2.outcome).into_iter().filter(|d| cause_class(d) == class).collect();
+                stats.inc(&format!("differs_{}", class));
+                let extra = format!(",\"root_cause\":\"{}\",\"cause_class\":\"{}\",\"differing_rules\":{},\"shape\":\"{}\",\"original_history_len\":{}", root_cause(class, blocks, &hmin), class, json_str(&d2.join(",")), shape(&hmin), h.len());
+                emit(&hmin, &u2, &f2, extra, &mut shards, &mut samples);
+            }
+        }
+    }
+    shards.flush();
+    println!("{{\"evaluations\":{},\"distinct_nontrivial\":{},\"shards\":{},\"distribution\":{},\"samples\":[{}]}}",
+        shards.total, distinct.len(), shards.shard_count, stats.json(), samples.join(","));
+    0
+}
+
 fn main() {
     let args: Vec<String> = std::env::args().skip(1).collect();
     if arg_flag(&args, "--explore") { std::process::exit(explore()); }
-    let _ = Path::new(".");
-    std::process::exit(2);
+    std::process::exit(run(&args));
 }
